@@ -9,9 +9,9 @@ HOOKS = {
 }
 
 ENGINES = [
-    {'name': 'E1 kani-step', 'path': '/verif/kani', 'serves_properties': ['C01', 'C02', 'C03', 'C04', 'C05', 'C10', 'C11', 'C12', 'C13', 'C18'],
+    {'name': 'E1 kani-step', 'path': '/verif/kani', 'serves_properties': ['C01', 'C02', 'C03', 'C04', 'C05', 'C07', 'C10', 'C11', 'C12', 'C13', 'C18', 'C19'],
      'kind_free_text': 'Kani 0.68 / CBMC 6.11 bounded model checking of the real planner/executor functions from symbolic pre-states of concrete shape; counterexamples extracted with concrete playback and replayed natively (/verif/replay) on the real dependency set'},
-    {'name': 'E2 mir-smt', 'path': '/verif/mir', 'serves_properties': ['C02', 'C03', 'C04', 'C06', 'C07', 'C11', 'C12', 'C13', 'C18'],
+    {'name': 'E2 mir-smt', 'path': '/verif/mir', 'serves_properties': ['C01', 'C02', 'C03', 'C04', 'C05', 'C06', 'C07', 'C08', 'C09', 'C11', 'C12', 'C13', 'C16', 'C17', 'C18', 'C19', 'C20'],
      'kind_free_text': 'symbolic execution of the nightly MIR dump of the current tree into SMT (z3, cvc5 cross-check) for loop-free generic glue code, parametric in the type parameters'},
 ]
 
@@ -59,8 +59,23 @@ CHECKS = {
                'Totality: every reachable panic (unwrap, overflow, indexing, group capacity) inside insertion_target/find_conflict/remove_ids/improves_balance and the commit is a CBMC check on every listed shape, and a joined group always has room; by induction no well-formed sequence panics. E2: add panics exactly on an unknown dependency or a reused non-empty name, quoting it, before anything is inserted; the empty name never touches the map.', BOTH_NOTE),
 }
 
+CHECKS.update({
+    'C08': chk('E2 mir-smt', 'other', 'DESIGN.md §4 C08', MIR_T,
+               'REDUCED claim (access-path logic): for try_fetch / try_fetch_mut the solver enumerates exactly three outcomes - lookup absent -> None, try_borrow(_mut) Err -> panic, Ok -> a guard that owns exactly that borrow of the cell looked up under ResourceId::new::<T>(), shared resp. exclusive; the by-id forms check the type id first, look up under that id, and on a present resource take the panicking borrow()/borrow_mut(); fetch/fetch_mut panic when absent; Fetch::clone is one more shared borrow; the guards have no Drop impl of their own; the meta iterators borrow through the cell. The shared-xor-exclusive state machine itself is atomic_refcell\'s (assumed).', MIR_NOTE),
+    'C09': chk('E2 mir-smt', 'other', 'DESIGN.md §4 C09', MIR_T,
+               'REDUCED claim: assert_same_type_id returns iff the type id of R equals the type id of the id passed (two outcomes, no other branch); insert_by_id / remove_by_id / try_fetch(_mut)_by_id call it first and access the map under that very id, so a mismatching call panics before the world is touched; insert/remove/has_value/entry/get_mut use ResourceId::new of their own type argument, so a value of type R only ever sits under R\'s id (precondition of the unchecked downcasts). Map laws are std HashMap\'s (assumed).', MIR_NOTE),
+    'C16': chk('E2 mir-smt', 'other', 'DESIGN.md §4 C16', MIR_T,
+               'For all H, T (uninterpreted): Seq::run = head.run then tail.run; Par::run = exactly one join of (head job, tail job) (pool.join from outside the pool, plain join inside), each job runs its child once on the same world and pool; reads/writes/setup of both node kinds reach head then tail; with()/new() keep every child; leaves forward to the accessor and run_now. By structural induction: every tree shape. Par::with in a debug-assertions build (separate MIR dump): returns iff none of node-W/child-R, node-W/child-W, node-R/child-W intersects, panics otherwise.', MIR_NOTE),
+    'C17': chk('E2 mir-smt', 'other', 'DESIGN.md §4 C17', MIR_T,
+               'REDUCED claim: register: new type -> index := old size, vtable_fns and tys grow by one (attach_vtable::<T,R>, TypeId of R); known type -> nothing grows, the function at the stored index is replaced. get/get_mut: Some iff the index map has the dynamic type id, the function stored at that index is applied to the address of that resource. attach_vtable returns iff the cast preserved the address, else panics. MetaIter(Mut)::next walks tys in order from self.index, skips absent types, borrows shared resp. exclusive and uses the vtable function stored at the index of the type id just read.', MIR_NOTE),
+    'C19': chk('E1 kani-step', 'model_checking', 'DESIGN.md §4 C19', 'relational bounded model checking (Kani/CBMC) of insertion_target under a solver-chosen resource permutation; ' + MIR_T,
+               'Relational harness: two table states of the same shape related by a solver-chosen permutation of the 6 resource ids (across both static types and the dynamic ids), with solver-chosen orders of the 2-element read/write lists, get the same target from the real insertion_target. Commit harness + E2: insert stores exactly the declared ids (sort/dedup only) and DispatcherBuilder::add hands only ids, never names, to the planner. No source of nondeterminism is reachable from placement.', BOTH_NOTE),
+    'C20': chk('E2 mir-smt', 'other', 'DESIGN.md §4 C20', MIR_T,
+               'REDUCED claim: write_par_seq has no panicking path of its own and does not unwrap the name lookup; it walks self.ids stage by stage, group by group, system by system (each inner loop iterates the item just yielded), looks every system up once, prints a named system as its name with space/dash/slash replaced and an unnamed one as a placeholder, one line per system plus two bracket lines per stage/group/plan; Debug for the builder prints its own tables with its own name map. That ids and the executed list are in lock-step is C04.', MIR_NOTE),
+})
+
 UNDER_CONSTRUCTION = 'check under construction in this session; not claimed yet'
-NOT_APPLICABLE = {p: UNDER_CONSTRUCTION for p in ['C08', 'C09', 'C16', 'C17', 'C19', 'C20']}
+NOT_APPLICABLE = {}
 NOT_APPLICABLE.update({
     'C14': 'needs unwinding semantics (catch_unwind, drop during unwind, rayon panic propagation); Kani/CBMC end a path at a panic and the MIR route would need std/rayon unwinding encoded - solver-based checking of the real code cannot reach it here',
     'C15': 'needs real threads, ThreadPool::spawn and blocking std::sync::mpsc receive; Kani has no thread model and a sequential stand-in would verify the stand-in, not shred',
